@@ -1,14 +1,14 @@
 (* Obligation C10/apply_spec.  Statement as printed by Coq from Inferno.C10.AccProofs; proof by reference.
    This file contains nothing else, so the statement cannot be weakened quietly. *)
 From Coq Require Import List ZArith Bool Arith Reals Lra Lia Permutation.
-From Inferno Require Import Base.Num Base.NumR Gen.Bounding C10.Updater C10.KernelProofs C10.AccProofs C10.OrderProofs C10.WorldProofs C10.UpdateProofs C10.InterleaveProofs.
+From Inferno Require Import Base.Num Base.NumR Gen.Bounding C10.Updater C10.KernelAlgebra C10.AccProofs.
 Import ListNotations.
 Open Scope R_scope.
 Theorem apply_spec : forall (a : accR) (x : tensorR),
   coh a ->
   wshape a (length x) ->
   bind_ok (abind RN a) ->
-  exists (a' : accR) (y : tensorW),
+  exists (a' : accR) (y : tensor RN),
     acc_forward RN a x = (a', Ok y) /\
     coh a' /\
     same_cfg a a' /\
